@@ -200,10 +200,10 @@ def run_shard(acc, shard, nshards, seed, tier):
         return dict(key=key, nontrivial=nt, classes=cl, violations=vios,
                     sample=dict(cfg=spec['cfg'], routes=spec['routes'], fast=spec['fast'], minutes=spec['n'], resting_orders=stats['resting'], filled=stats['filled'],
                                 orders=r['orders'][:3]) if nt else None)
-    runner.hyp_search(acc, sess, chk, 60 if tier == 'quick' else 2500, seed, tier, known=known, shrink_calls=25, max_shrink_sigs=2,
+    runner.hyp_search(acc, sess, chk, 100 if tier == 'quick' else 2500, seed, tier, known=known, shrink_calls=25, max_shrink_sigs=2,
                       describe=lambda spec: dict(spec=spec))
     # hair gaps: the open differs from the previous close by 1-3 ticks at a price of 20000 ticks (under 0.015 % of the price)
     hair = sessions.session(minutes=(60, 180) if tier == 'quick' else (60, 400), max_data=0, warmup=(False,), align_len=True, program=dict(busy=True),
                             modes=('cross',), candle_opts=dict(start=20000, gap_sizes=(1, 2, 3), gap_ps=(3, 5, 8), max_body=2, max_wick=2))
-    runner.hyp_search(acc, hair, lambda spec: dict(chk(spec), sub='hair-gap-sessions'), 15 if tier == 'quick' else 600, seed + 9, tier, known=known,
+    runner.hyp_search(acc, hair, lambda spec: dict(chk(spec), sub='hair-gap-sessions'), 25 if tier == 'quick' else 600, seed + 9, tier, known=known,
                       shrink_calls=25, max_shrink_sigs=2, describe=lambda spec: dict(spec=spec))
